@@ -91,6 +91,7 @@ HALPHA = [
 ]
 
 
+HALPHA3 = [["set_initial", "x", "const", 0.4], ["set_initial", "x", "expr", "lin"], ["query", "sample"], ["subject_to", P.con("x_le")]]
 HGRIDS = ["uniform_lT", "uniform_lt0", "free", "geom_lt0_lT"]
 HALPHA2 = [["set_initial", "T", "const", 3.1], ["set_initial", "T", "const", 0.8], ["set_initial", "x", "expr", "lin"], ["set_initial", "u", "expr", "sin"], ["query", "sample"], ["solve"]]
 
@@ -166,6 +167,12 @@ def cases(tier):
                 # the same with the horizon given as a user variable (set_T(v)) whose guess is set through v
                 if any(HALPHA2[i][1] == "T" for i in h if HALPHA2[i][0] == "set_initial"):
                     out.append(dict(kind="history", grid=g, horizon="Tvar", ops=[([o[0], "Tv"] + o[2:]) if (o[0] == "set_initial" and o[1] == "T") else o for o in (HALPHA2[i] for i in h)]))
+    # histories on an Ocp whose method is DirectCollocation from the start: the SAME method object transcribes twice
+    # (helper states at the collocation times must start on the guesses after a re-transcription as well)
+    for bm in (dict(method="DC", degree=2, M=1), dict(method="DC", degree=3, M=2, scheme="legendre")):
+        for h in explore.histories(list(range(len(HALPHA3))), depth):
+            if h and any(HALPHA3[i][0] in ("query", "subject_to") for i in h):
+                out.append(dict(kind="history", base_method=bm, ops=[HALPHA3[i] for i in h]))
     return out
 
 
@@ -536,6 +543,8 @@ def run_case(case):
         base = copy.deepcopy(HBASE); base["grid"] = case["grid"]
         if case.get("horizon"):
             base["horizon"] = case["horizon"]
+    if case.get("base_method"):
+        base = copy.deepcopy(base); base.update(case["base_method"])
     out = hist.run_history(base, case["ops"])
     tags = (["grid=%s" % case["grid"]] if case.get("grid") else []) + (["horizon=%s" % case["horizon"]] if case.get("horizon") else [])
     seen_tr = False
